@@ -686,6 +686,46 @@ def lw6(cfg):
             res.ob(ok, {'rule': 'LW-6', 'function': 'write_guard::try_lock_upgrade / optimistic_lock::try_upgrade_to_write_lock', 'section_pointer_cleared_on_every_path': sec_always, 'unit_given_back_on_every_path': up_always, 'verdict': 'discharged' if ok else 'VIOLATION'})
             if not ok:
                 res.find(f, f.loc, 'the upgrade consumes the read section on %s (write_guard::try_lock_upgrade clears its lock pointer), but optimistic_lock::try_upgrade_to_write_lock gives the read-lock unit back %s: after a failed upgrade (a concurrent writer won) the unit of the consumed section is never returned, read_lock_count stays positive and check_on_dealloc asserts when the node is freed - on a legal schedule' % ('every path' if sec_always else 'some paths only', 'on every path' if up_always else 'on some paths only'), key='LW-6:upgrade', config=cfg.name)
+    # 4. the unit is really taken and really given back: the two counter primitives are one fetch_add(1) / fetch_sub(1) on
+    #    read_lock_count, and every function that hands out a section with a lock takes the unit on that path
+    for nm, op in (('inc_read_lock_count', 'fetch_add'), ('dec_read_lock_count', 'fetch_sub')):
+        for f in cfg.functions:
+            if not f.blocks or f.cls != OL or f.short != nm:
+                continue
+            n += 1
+            ops = [e for b, i, e in f.elements() if e.get('k') == 'call' and e.get('name') in ('fetch_add', 'fetch_sub', 'store', 'exchange') and not is_assert_elem(e)]
+            ok = len(ops) == 1 and ops[0]['name'] == op and ops[0].get('args') and str(f.strip_casts(ops[0]['args'][0]).get('v')) == '1' and 'read_lock_count' in str(f.strip_casts(ops[0].get('obj')) or '')
+            res.ob(ok, {'rule': 'LW-6', 'function': 'optimistic_lock::' + nm, 'fact': 'one %s(1) on read_lock_count' % op, 'verdict': 'discharged' if ok else 'VIOLATION'})
+            if not ok:
+                res.find(f, f.loc, 'optimistic_lock::%s is not exactly one %s(1) on read_lock_count: the count of open read sections drifts, and the assertions `read_lock_count > 0` (every check) / `== 0` (node freed) fire on legal usage' % (nm, op), key='LW-6:' + nm, config=cfg.name)
+    for nm in ('try_read_lock', 'rehydrate_read_lock'):
+        for f in cfg.functions:
+            if not f.blocks or f.cls != OL or f.short != nm:
+                continue
+            n += 1
+            dom = dominators(f)
+            incs = [(b, i) for b, i, e in f.elements() if e.get('k') == 'call' and e.get('name') == 'inc_read_lock_count' and not is_assert_elem(e)]
+            # returns that hand out a section constructed from (*this, version)
+            bad = []
+            nret = 0
+            for b, i, e in f.elements():
+                if e.get('k') != 'return' or e.get('e') is None:
+                    continue
+                x = f.strip_casts(e['e'])
+                d = 0
+                while isinstance(x, dict) and x.get('k') == 'call' and x.get('ck') == 'ctor' and len(x.get('args', [])) == 1 and d < 4:
+                    x = f.strip_casts(x['args'][0])
+                    d += 1
+                with_lock = isinstance(x, dict) and ((x.get('k') == 'call' and x.get('ck') == 'ctor' and len(x.get('args', [])) == 2) or (x.get('k') == 'initlist' and len(x.get('args', [])) == 2))
+                if not with_lock:
+                    continue
+                nret += 1
+                if not any(elem_dominates(f, dom, inc_, (b, i)) for inc_ in incs):
+                    bad.append(e)
+            ok = nret >= 1 and not bad
+            res.ob(ok, {'rule': 'LW-6', 'function': 'optimistic_lock::' + nm, 'fact': 'takes a unit on every path that hands out a section with a lock', 'returns_with_lock': nret, 'verdict': 'discharged' if ok else 'VIOLATION'})
+            if not ok:
+                res.find(f, (bad[0].get('loc') if bad else f.loc), 'optimistic_lock::%s hands out a read section with a lock on a path on which inc_read_lock_count() has not been called: the section will give back a unit it never took (read_lock_count underflows, `read_lock_count > 0` asserts on the next legal check)' % nm, key='LW-6:take:' + nm, config=cfg.name)
     res.count('section operations that may give the unit back', n)
-    res.floor('section operations that may give the unit back', 3)
+    res.floor('section operations that may give the unit back', 7)
     return res
